@@ -131,6 +131,25 @@ class PROP(Prop):
                     continue
                 ok = top in deps.STDLIB or imp == "__main__"
                 out.append((f"static/{modname.split('.')[-1]}/import:{imp}@{qual or 'module'}:{line}", ok, f"line {line}: import {imp} {names}"))
+        # 6b. `try: from execnet... import A, B / except ImportError: from __main__ import ...`: on a bare interpreter only the except branch runs,
+        #     so it must bind every name the try branch binds (the shipped text must not use a name only the import path provides)
+        for modname in (GIO, RSYNCR, SOCKSERVER):
+            m = extract.load(modname)
+            for node in m.tree.body:
+                if isinstance(node, ast.Try) and any(isinstance(h.type, ast.Name) and h.type.id == "ImportError" for h in node.handlers):
+                    def bound(stmts):
+                        out_ = set()
+                        for st_ in stmts:
+                            for n in ast.walk(st_):
+                                if isinstance(n, (ast.Import, ast.ImportFrom)):
+                                    out_ |= {(al.asname or al.name).split(".")[0] for al in n.names}
+                                elif isinstance(n, ast.Name) and isinstance(n.ctx, ast.Store):
+                                    out_.add(n.id)
+                        return out_
+                    tried = bound(node.body)
+                    for h in node.handlers:
+                        missing = sorted(tried - bound(h.body))
+                        out.append((f"static/{modname.split('.')[-1]}/import-fallback-binds-the-same-names@{node.lineno}", not missing, f"try binds {sorted(tried)}; fallback misses {missing}"))
         # 7. bootstrap(): import-bootstrap only for a plain popen
         bs = ast.unparse(boot.func("bootstrap"))
         out.append(("static/bootstrap/import-only-for-plain-popen", "if spec.popen:\n        if spec.via or spec.python:\n            bootstrap_exec(io, spec)\n        else:\n            bootstrap_import(io, spec)" in bs, "branch structure"))
